@@ -188,7 +188,7 @@ func genStoreCase(prop string, r *rng, tier string) {
 		nh := 1 + r.intn(3)
 		for i := 0; i < nh; i++ {
 			sc := "-"
-			if prop == "C14" && cfg.par == 0 && r.chance(2, 3) { // call-index scripts need the sequential order
+			if (prop == "C14" && cfg.par == 0 && r.chance(2, 3)) || (prop == "C08" && cfg.par == 0 && r.chance(1, 3)) { // call-index scripts need the sequential order
 				var fs []string
 				for k := 0; k < 1+r.intn(2); k++ {
 					fs = append(fs, strconv.Itoa(r.intn(12))+string("epn"[r.intn(3)]))
